@@ -1,10 +1,13 @@
-import FiberModel.C08.Spec
+import FiberModel.C08.Known
+import FiberModel.C04.PathLemmas
 /-
-C08 — helper lemmas: prefix arithmetic, the loop invariant of `App.ErrorHandler`'s fold, the
-characterisation of `innermost`, uniqueness of the best candidate.
+C08 — helper lemmas: prefix arithmetic, case folding, the loop invariant of `App.ErrorHandler`'s
+fold, the characterisation of `innermost`, uniqueness of the best candidate, parameter-free keys.
 -/
 namespace C08
 open B C04
+
+/-! ### literal prefixes -/
 
 theorem stripPrefix_eq_some {pre path rest : Bytes} :
     stripPrefix pre path = some rest ↔ path = pre ++ rest := by
@@ -32,9 +35,13 @@ theorem stripPrefix_eq_none {pre path : Bytes} :
       · subst h; simp [ih]
       · simp [h]
 
-/-- the code's boundary test is the spec's `contains` -/
-theorem hasMountPrefix_eq_contains (path pre : Bytes) : hasMountPrefix path pre = contains pre path := by
-  unfold hasMountPrefix contains
+/-- the boundary test on already folded strings (the code before F2) -/
+def hmpRaw (path pre : Bytes) : Bool :=
+  pre.isPrefixOf path &&
+    (path.length == pre.length || pre.getLast? == some 47 || path[pre.length]? == some 47)
+
+theorem hmpRaw_eq_containsRaw (path pre : Bytes) : hmpRaw path pre = containsRaw pre path := by
+  unfold hmpRaw containsRaw
   cases hs : stripPrefix pre path with
   | none => simp [stripPrefix_eq_none.mp hs]
   | some rest =>
@@ -49,53 +56,144 @@ theorem hasMountPrefix_eq_contains (path pre : Bytes) : hasMountPrefix path pre 
     rw [h2, h3]
     cases rest.isEmpty <;> cases (rest.head? == some 47) <;> cases (pre.getLast? == some 47) <;> rfl
 
-theorem contains_prefix {pre path : Bytes} (h : contains pre path = true) : pre <+: path := by
-  unfold contains at h
+theorem containsRaw_prefix {pre path : Bytes} (h : containsRaw pre path = true) : pre <+: path := by
+  unfold containsRaw at h
   cases hs : stripPrefix pre path with
   | none => simp [hs] at h
   | some rest => exact ⟨rest, (stripPrefix_eq_some.mp hs).symm⟩
 
+theorem prefix_eq_of_length_eq {a b p : Bytes} (ha : a <+: p) (hb : b <+: p)
+    (hl : a.length = b.length) : a = b := by
+  rw [List.prefix_iff_eq_take] at ha hb
+  rw [ha, hb, hl]
+
+/-! ### folding -/
+
+theorem fb_eq_slash (cfg : Cfg) (x : Nat) : (fb cfg x == 47) = (x == 47) := by
+  unfold fb
+  by_cases h : cfg.caseSensitive = true
+  · simp [h]
+  · simp only [h]; exact lowerByte_eq_slash x
+
+@[simp] theorem fold_length (cfg : Cfg) (s : Bytes) : (fold cfg s).length = s.length := by
+  simp [fold]
+
+theorem fold_cs {cfg : Cfg} (h : cfg.caseSensitive = true) (s : Bytes) : fold cfg s = s := by
+  unfold fold fb
+  simp [h]
+
+theorem fold_ci {cfg : Cfg} (h : cfg.caseSensitive = false) (s : Bytes) : fold cfg s = toLower s := by
+  unfold fold fb toLower
+  simp [h]
+
+theorem opt_fb_slash (cfg : Cfg) (o : Option Nat) : (o.map (fb cfg) == some 47) = (o == some 47) := by
+  cases o with
+  | none => rfl
+  | some x => simpa using fb_eq_slash cfg x
+
+theorem fold_getLast_slash (cfg : Cfg) (s : Bytes) :
+    ((fold cfg s).getLast? == some 47) = (s.getLast? == some 47) := by
+  unfold fold
+  rw [List.getLast?_map]
+  exact opt_fb_slash cfg _
+
+theorem fold_getElem_slash (cfg : Cfg) (s : Bytes) (n : Nat) :
+    ((fold cfg s)[n]? == some 47) = (s[n]? == some 47) := by
+  unfold fold
+  rw [List.getElem?_map]
+  exact opt_fb_slash cfg _
+
+theorem isPrefixOf_iff_take (p s : Bytes) :
+    p.isPrefixOf s = (decide (p.length ≤ s.length) && (s.take p.length == p)) := by
+  rw [Bool.eq_iff_iff]
+  simp only [List.isPrefixOf_iff_prefix, Bool.and_eq_true, decide_eq_true_eq, beq_iff_eq]
+  constructor
+  · intro h
+    exact ⟨h.length_le, (List.prefix_iff_eq_take.mp h).symm⟩
+  · rintro ⟨_, h⟩
+    rw [List.prefix_iff_eq_take]; exact h.symm
+
+/-- F2 in one line: the code's test is the old test on the strings as the router compares them -/
+theorem hasMountPrefix_fold (cfg : Cfg) (path pre : Bytes) :
+    hasMountPrefix cfg path pre = hmpRaw (fold cfg path) (fold cfg pre) := by
+  unfold hasMountPrefix hmpRaw
+  rw [isPrefixOf_iff_take, fold_getLast_slash, fold_getElem_slash]
+  simp only [fold_length]
+  by_cases hlen : path.length < pre.length
+  · have : decide (pre.length ≤ path.length) = false := by simp; omega
+    simp [hlen, this]
+  · have hle : decide (pre.length ≤ path.length) = true := by simp; omega
+    simp only [hlen, if_false, hle, Bool.true_and]
+    by_cases hcs : cfg.caseSensitive = true
+    · rw [fold_cs hcs, fold_cs hcs]
+      simp only [hcs, Bool.true_or, Bool.and_true]
+      by_cases he : List.take pre.length path = pre
+      · simp [he]
+      · simp [he]
+    · have hcs' : cfg.caseSensitive = false := by simpa using hcs
+      rw [fold_ci hcs', fold_ci hcs']
+      have ht : List.take pre.length (toLower path) = toLower (List.take pre.length path) := by
+        simp [toLower, List.map_take]
+      rw [ht]
+      simp only [hcs', Bool.false_or, equalFold]
+      by_cases he : List.take pre.length path = pre
+      · simp [he]
+      · by_cases hf : toLower (List.take pre.length path) = toLower pre
+        · simp [he, hf]
+        · simp [he, hf]
+
+/-- the code's test on a key (leading slash added as the loop does) is the spec's literal `contains` -/
+theorem hasMountPrefix_eq_contains' (cfg : Cfg) (path k : Bytes) :
+    hasMountPrefix cfg path (ensureSlash k) = contains cfg k path := by
+  rw [hasMountPrefix_fold, hmpRaw_eq_containsRaw]; rfl
+
+/-! ### the loop -/
+
+/-- length of the key as the loop compares it -/
+def klen (m : Mounted) : Nat := (ensureSlash m.pre).length
+
 /-- a candidate as the loop sees it -/
-def Cand (path : Bytes) (m : Mounted) : Prop :=
-  m.pre ≠ [] ∧ m.own ≠ none ∧ hasMountPrefix path m.pre = true
+def Cand (cfg : Cfg) (path : Bytes) (m : Mounted) : Prop :=
+  m.pre ≠ [] ∧ m.own ≠ none ∧ hasMountPrefix cfg path (ensureSlash m.pre) = true
 
-instance (path : Bytes) (m : Mounted) : Decidable (Cand path m) := by unfold Cand; exact inferInstance
+instance (cfg : Cfg) (path : Bytes) (m : Mounted) : Decidable (Cand cfg path m) := by
+  unfold Cand; exact inferInstance
 
-theorem step_of_not_cand {path acc m} (h : ¬ Cand path m) : step path acc m = acc := by
+theorem step_of_not_cand {cfg path acc m} (h : ¬ Cand cfg path m) : step cfg path acc m = acc := by
   unfold step Cand at *
   by_cases h1 : m.pre = []
   · simp [h1]
   · by_cases h2 : m.own = none
     · simp [h2]
-    · have h3 : hasMountPrefix path m.pre = false := by
-        cases hh : hasMountPrefix path m.pre with
+    · have h3 : hasMountPrefix cfg path (ensureSlash m.pre) = false := by
+        cases hh : hasMountPrefix cfg path (ensureSlash m.pre) with
         | false => rfl
         | true => exact absurd ⟨h1, h2, hh⟩ h
       simp [h3]
 
-theorem step_of_cand {path acc m} (h : Cand path m) :
-    step path acc m = if m.pre.length > acc.2 then (m.own, m.pre.length) else acc := by
-  unfold step
+theorem step_of_cand {cfg path acc m} (h : Cand cfg path m) :
+    step cfg path acc m = if klen m > acc.2 then (m.own, klen m) else acc := by
+  unfold step klen
   obtain ⟨h1, h2, h3⟩ := h
   simp [h1, h2, h3]
 
 /-- loop invariant of the fold in `App.ErrorHandler` -/
-theorem fold_inv (path : Bytes) (l : List Mounted) (acc : Option Own × Nat) :
-    let r := l.foldl (step path) acc
-    acc.2 ≤ r.2 ∧ (∀ m ∈ l, Cand path m → m.pre.length ≤ r.2) ∧
-    (r = acc ∨ ∃ m ∈ l, Cand path m ∧ r = (m.own, m.pre.length) ∧ acc.2 < m.pre.length) := by
+theorem fold_inv (cfg : Cfg) (path : Bytes) (l : List Mounted) (acc : Option Own × Nat) :
+    let r := l.foldl (step cfg path) acc
+    acc.2 ≤ r.2 ∧ (∀ m ∈ l, Cand cfg path m → klen m ≤ r.2) ∧
+    (r = acc ∨ ∃ m ∈ l, Cand cfg path m ∧ r = (m.own, klen m) ∧ acc.2 < klen m) := by
   induction l generalizing acc with
   | nil => simp
   | cons m t ih =>
     simp only [List.foldl_cons]
-    have ih' := ih (step path acc m)
+    have ih' := ih (step cfg path acc m)
     simp only at ih'
     obtain ⟨hA, hB, hC⟩ := ih'
-    by_cases hc : Cand path m
+    by_cases hc : Cand cfg path m
     · rw [step_of_cand hc] at hA hB hC ⊢
-      by_cases hgt : m.pre.length > acc.2
+      by_cases hgt : klen m > acc.2
       · simp only [hgt, if_true] at hA hB hC ⊢
-        have hA' : m.pre.length ≤ (List.foldl (step path) (m.own, m.pre.length) t).2 := hA
+        have hA' : klen m ≤ (List.foldl (step cfg path) (m.own, klen m) t).2 := hA
         refine ⟨by omega, ?_, ?_⟩
         · intro x hx hcx
           rcases List.mem_cons.mp hx with rfl | hx
@@ -103,7 +201,7 @@ theorem fold_inv (path : Bytes) (l : List Mounted) (acc : Option Own × Nat) :
           · exact hB x hx hcx
         · rcases hC with hC | ⟨x, hx, hcx, hr, hlt⟩
           · exact Or.inr ⟨m, by simp, hc, hC, hgt⟩
-          · have hlt' : m.pre.length < x.pre.length := hlt
+          · have hlt' : klen m < klen x := hlt
             exact Or.inr ⟨x, List.mem_cons_of_mem _ hx, hcx, hr, by omega⟩
       · simp only [hgt, if_false] at hA hB hC ⊢
         refine ⟨hA, ?_, ?_⟩
@@ -125,8 +223,8 @@ theorem fold_inv (path : Bytes) (l : List Mounted) (acc : Option Own × Nat) :
         · exact Or.inr ⟨x, List.mem_cons_of_mem _ hx, hcx, hr, hlt⟩
 
 /-- `x` is a candidate of `l` with the longest prefix -/
-def Best (l : List Mounted) (path : Bytes) (x : Mounted) : Prop :=
-  x ∈ l ∧ Cand path x ∧ ∀ y ∈ l, Cand path y → y.pre.length ≤ x.pre.length
+def Best (cfg : Cfg) (l : List Mounted) (path : Bytes) (x : Mounted) : Prop :=
+  x ∈ l ∧ Cand cfg path x ∧ ∀ y ∈ l, Cand cfg path y → klen y ≤ klen x
 
 theorem nodup_map_inj {α β} (f : α → β) {l : List α} (h : (l.map f).Nodup) {a b : α}
     (ha : a ∈ l) (hb : b ∈ l) (hf : f a = f b) : a = b := by
@@ -142,28 +240,29 @@ theorem nodup_map_inj {α β} (f : α → β) {l : List α} (h : (l.map f).Nodup
       · rw [hbx] at hf; exact absurd hf (h.1 a hat)
       · exact ih h.2 hat hbt
 
-theorem prefix_eq_of_length_eq {a b p : Bytes} (ha : a <+: p) (hb : b <+: p)
-    (hl : a.length = b.length) : a = b := by
-  rw [List.prefix_iff_eq_take] at ha hb
-  rw [ha, hb, hl]
-
-theorem cand_prefix {path : Bytes} {m : Mounted} (h : Cand path m) : m.pre <+: path := by
+theorem cand_prefix {cfg : Cfg} {path : Bytes} {m : Mounted} (h : Cand cfg path m) :
+    fold cfg (ensureSlash m.pre) <+: fold cfg path := by
   have := h.2.2
-  rw [hasMountPrefix_eq_contains] at this
-  exact contains_prefix this
+  rw [hasMountPrefix_fold, hmpRaw_eq_containsRaw] at this
+  exact containsRaw_prefix this
 
-theorem best_unique {l : List Mounted} {path : Bytes} (hnd : (l.map (·.pre)).Nodup) {x y : Mounted}
-    (hx : Best l path x) (hy : Best l path y) : x = y := by
+theorem best_unique {cfg : Cfg} {l : List Mounted} {path : Bytes}
+    (hnd : (l.map (fun m => normKey cfg m.pre)).Nodup) {x y : Mounted}
+    (hx : Best cfg l path x) (hy : Best cfg l path y) : x = y := by
   have h1 := hx.2.2 y hy.1 hy.2.1
   have h2 := hy.2.2 x hx.1 hx.2.1
-  have hp : x.pre = y.pre := prefix_eq_of_length_eq (cand_prefix hx.2.1) (cand_prefix hy.2.1) (by omega)
-  exact nodup_map_inj (·.pre) hnd hx.1 hy.1 hp
+  have hl : (fold cfg (ensureSlash x.pre)).length = (fold cfg (ensureSlash y.pre)).length := by
+    simp only [fold_length]; unfold klen at h1 h2; omega
+  have hp := prefix_eq_of_length_eq (cand_prefix hx.2.1) (cand_prefix hy.2.1) hl
+  apply nodup_map_inj (fun m => normKey cfg m.pre) hnd hx.1 hy.1
+  simp only [normKey, hx.2.1.1, hy.2.1.1, if_false]
+  exact hp
 
 /-- what the fold returns: nothing if there is no candidate, else the best candidate's handler -/
-theorem select_char (l : List Mounted) (path : Bytes) :
-    ((∀ m ∈ l, ¬ Cand path m) ∧ select l path = none) ∨
-    (∃ x, Best l path x ∧ select l path = x.own) := by
-  have h := fold_inv path l (none, 0)
+theorem select_char (cfg : Cfg) (l : List Mounted) (path : Bytes) :
+    ((∀ m ∈ l, ¬ Cand cfg path m) ∧ select cfg l path = none) ∨
+    (∃ x, Best cfg l path x ∧ select cfg l path = x.own) := by
+  have h := fold_inv cfg path l (none, 0)
   simp only at h
   obtain ⟨_, hB, hC⟩ := h
   unfold select
@@ -173,8 +272,9 @@ theorem select_char (l : List Mounted) (path : Bytes) :
     intro m hm hc
     have := hB m hm hc
     rw [hC] at this
-    have hne := hc.1
-    cases hp : m.pre with
+    have hne : (ensureSlash m.pre) ≠ [] := ensureSlash_ne_nil _
+    unfold klen at this
+    cases hp : ensureSlash m.pre with
     | nil => exact hne hp
     | cons a t => rw [hp] at this; simp at this
   · right
@@ -184,22 +284,26 @@ theorem select_char (l : List Mounted) (path : Bytes) :
     rw [hr] at this
     exact this
 
-theorem innermost_none {c : List Mounted} : innermost c = none ↔ c = [] := by
+/-! ### the spec's `innermost` -/
+
+theorem innermost_none {cfg : Cfg} {path : Bytes} {c : List Mounted} :
+    innermost cfg path c = none ↔ c = [] := by
   cases c with
   | nil => simp [innermost]
   | cons m t =>
     simp only [innermost]
-    cases innermost t with
+    cases innermost cfg path t with
     | none => simp
-    | some x => by_cases h : x.pre.length > m.pre.length <;> simp [h]
+    | some x => by_cases h : reach cfg path x > reach cfg path m <;> simp [h]
 
-theorem innermost_some {c : List Mounted} {x : Mounted} (h : innermost c = some x) :
-    x ∈ c ∧ ∀ y ∈ c, y.pre.length ≤ x.pre.length := by
+theorem innermost_some {cfg : Cfg} {path : Bytes} {c : List Mounted} {x : Mounted}
+    (h : innermost cfg path c = some x) :
+    x ∈ c ∧ ∀ y ∈ c, reach cfg path y ≤ reach cfg path x := by
   induction c generalizing x with
   | nil => simp [innermost] at h
   | cons m t ih =>
     simp only [innermost] at h
-    cases ht : innermost t with
+    cases ht : innermost cfg path t with
     | none =>
       rw [ht] at h
       simp only [Option.some.injEq] at h
@@ -210,7 +314,7 @@ theorem innermost_some {c : List Mounted} {x : Mounted} (h : innermost c = some 
     | some z =>
       rw [ht] at h
       have ihz := ih ht
-      by_cases hgt : z.pre.length > m.pre.length
+      by_cases hgt : reach cfg path z > reach cfg path m
       · simp only [hgt, if_true, Option.some.injEq] at h
         subst h
         refine ⟨List.mem_cons_of_mem _ ihz.1, ?_⟩
@@ -226,10 +330,119 @@ theorem innermost_some {c : List Mounted} {x : Mounted} (h : innermost c = some 
         · omega
         · have := ihz.2 y hy; omega
 
-theorem mem_candidates {l : List Mounted} {path : Bytes} {m : Mounted} :
-    m ∈ candidates l path ↔ m ∈ l ∧ Cand path m := by
-  unfold candidates Cand
-  rw [List.mem_filter, hasMountPrefix_eq_contains]
+theorem mem_candidates {cfg : Cfg} {l : List Mounted} {path : Bytes} {m : Mounted} :
+    m ∈ candidates cfg l path ↔ m ∈ l ∧ m.pre ≠ [] ∧ m.own ≠ none ∧
+      (contains cfg m.pre path = true ∨ (coversPat cfg m.pre path).isSome = true) := by
+  unfold candidates isCandidate
+  rw [List.mem_filter]
+  constructor
+  · rintro ⟨hm, h⟩
+    simp only [Bool.and_eq_true, Bool.not_eq_true', List.isEmpty_eq_false_iff, Bool.or_eq_true] at h
+    refine ⟨hm, h.1.1, ?_, h.2⟩
+    intro hn; rw [hn] at h; simp at h
+  · rintro ⟨hm, h1, h2, h3⟩
+    refine ⟨hm, ?_⟩
+    simp only [Bool.and_eq_true, Bool.not_eq_true', List.isEmpty_eq_false_iff, Bool.or_eq_true]
+    refine ⟨⟨h1, ?_⟩, h3⟩
+    cases ho : m.own with
+    | none => exact absurd ho h2
+    | some _ => rfl
+
+/-- a literal candidate of the loop is a candidate of the spec, and the other way round -/
+theorem cand_iff_literal {cfg : Cfg} {path : Bytes} {m : Mounted} :
+    Cand cfg path m ↔ m.pre ≠ [] ∧ m.own ≠ none ∧ contains cfg m.pre path = true := by
+  unfold Cand
+  rw [hasMountPrefix_eq_contains']
+
+theorem reach_literal {cfg : Cfg} {path : Bytes} {m : Mounted} (h : contains cfg m.pre path = true) :
+    reach cfg path m = 2 * klen m + 1 := by
+  unfold reach klen mountedAt
+  simp [h]
+
+/-! ### parameter-free keys: the pattern reading is the literal reading -/
+
+/-- no segment of the (slashed) key starts with ':' -/
+def paramFree (k : Bytes) : Bool := (tokenize false false (mountedAt k)).all (· != .param)
+
+theorem tokenize_paramFree (ps : Bool) (k : Bytes)
+    (h : (tokenize false ps k).all (· != .param) = true) : tokenize false ps k = k.map .lit := by
+  induction k generalizing ps with
+  | nil => rfl
+  | cons c t ih =>
+    unfold tokenize at h ⊢
+    simp only [Bool.false_eq_true, if_false] at h ⊢
+    by_cases hp : c = 58 ∧ ps = true
+    · simp [hp] at h
+    · simp only [hp, if_false, List.all_cons, Bool.and_eq_true] at h ⊢
+      rw [ih _ h.2]; rfl
+
+theorem matchToks_lits (cfg : Cfg) (k path : Bytes) (n : Nat)
+    (h : matchToks cfg (k.map .lit) path = some n) :
+    n = k.length ∧ stripPrefix (fold cfg k) (fold cfg path) = some (fold cfg (path.drop k.length)) := by
+  induction k generalizing path n with
+  | nil =>
+    simp only [List.map_nil, matchToks, Option.some.injEq] at h
+    subst h
+    simp [fold, stripPrefix]
+  | cons c t ih =>
+    cases path with
+    | nil => simp [matchToks] at h
+    | cons d p =>
+      simp only [List.map_cons, matchToks] at h
+      by_cases hcd : fb cfg c = fb cfg d
+      · simp only [hcd, if_true, Option.map_eq_some_iff] at h
+        obtain ⟨n', hn', rfl⟩ := h
+        obtain ⟨h1, h2⟩ := ih p n' hn'
+        refine ⟨by simp [h1], ?_⟩
+        simp only [fold, List.map_cons, stripPrefix, hcd, if_true, List.length_cons, List.drop_succ_cons]
+        exact h2
+      · simp [hcd] at h
+
+/-- for a parameter-free key the pattern reading adds nothing to the literal one -/
+theorem coversPat_paramFree {cfg : Cfg} {k path : Bytes} (hpf : paramFree k = true)
+    (h : (coversPat cfg k path).isSome = true) : contains cfg k path = true := by
+  unfold coversPat at h
+  unfold paramFree at hpf
+  rw [tokenize_paramFree _ _ hpf] at h
+  cases hm : matchToks cfg ((mountedAt k).map .lit) path with
+  | none => simp [hm] at h
+  | some n =>
+    obtain ⟨hn, hs⟩ := matchToks_lits cfg _ _ _ hm
+    simp only [hm] at h
+    subst hn
+    unfold contains containsRaw
+    rw [hs]
+    simp only []
+    rw [fold_getLast_slash]
+    have hE : (fold cfg (List.drop (mountedAt k).length path)).isEmpty
+        = (List.drop (mountedAt k).length path).isEmpty := by
+      cases List.drop (mountedAt k).length path <;> rfl
+    have hH : ((fold cfg (List.drop (mountedAt k).length path)).head? == some 47)
+        = ((List.drop (mountedAt k).length path).head? == some 47) := by
+      have := fold_getElem_slash cfg (List.drop (mountedAt k).length path) 0
+      simpa [List.head?_eq_getElem?] using this
+    rw [hE, hH]
+    generalize ((List.drop (mountedAt k).length path).isEmpty ||
+        (List.drop (mountedAt k).length path).head? == some 47 ||
+        (mountedAt k).getLast? == some 47) = bb at h ⊢
+    cases bb with
+    | true => rfl
+    | false => simp at h
+
+/-! ### what the loop computes, for every table: the innermost LITERAL candidate -/
+
+def literalCandidates (cfg : Cfg) (l : List Mounted) (path : Bytes) : List Mounted :=
+  l.filter fun m => !m.pre.isEmpty && m.own.isSome && contains cfg m.pre path
+
+/-- the handler of the mounted app with the longest prefix among those that configured one and
+contain the path LITERALLY (as the router compares: leading slash, letter case) -/
+def selectLiteral (cfg : Cfg) (l : List Mounted) (path : Bytes) : Option Own :=
+  (innermost cfg path (literalCandidates cfg l path)).bind (·.own)
+
+theorem mem_literalCandidates {cfg : Cfg} {l : List Mounted} {path : Bytes} {m : Mounted} :
+    m ∈ literalCandidates cfg l path ↔ m ∈ l ∧ Cand cfg path m := by
+  unfold literalCandidates
+  rw [List.mem_filter, cand_iff_literal]
   constructor
   · rintro ⟨hm, h⟩
     simp only [Bool.and_eq_true, Bool.not_eq_true', List.isEmpty_eq_false_iff] at h
